@@ -50,6 +50,7 @@ class Ctx:
         self.nontrivial = set()
         self.analysed = {'functions': set(), 'call_sites': 0, 'cfgs': 0}
         self.exhaustive = True
+        self.instances = {}
 
     # -- bookkeeping -------------------------------------------------------------------
     def rule(self, rule, description):
@@ -107,6 +108,7 @@ class Ctx:
 
     def floor(self, rule, what, count, minimum):
         """Vacuity guard: fewer instances than confirmed by hand means the analysis is broken."""
+        self.instances['%s %s' % (rule, what)] = count
         if count < minimum:
             raise AnalysisError("%s %s: only %d instance(s) of %s found, floor is %d"
                                 % (self.prop, rule, count, what, minimum))
@@ -178,7 +180,8 @@ def finish(ctx, t0, seed=0, write=True):
                            ' | '.join('%s: %s' % kv for kv in sorted(ctx.rules.items())),
             'obligations': n_ob,
             'discharged': n_ok,
-            'evaluations': max(n_ob, 1),
+            'evaluations': max(n_ob, sum(ctx.instances.values()), 1),
+            'instances_enumerated': ctx.instances,
             'distinct_nontrivial': len(ctx.nontrivial),
             'rule': 'one obligation per (rule, construct) instance extracted from the source; '
                     'non-trivial = the rule had a fact to decide for that construct; distinct by '
